@@ -327,7 +327,12 @@ func c13BinaryStreams(quick bool) []c13Stream {
 	eb := make([]byte, 64)
 	_ = execD.Encode(eb)
 	for stage := uint8(0); stage < 4; stage++ {
-		for vi, nested := range [][]byte{{}, {0}, {0, 0, 0, 0}, {1, 0, 0, 0}, {1, 0, 0, 0, 0}, {2, 0, 0, 0, 0}, {2, 0, 0, 0, 0, 0}, {3, 0, 0, 0, 0, 0x10, 9}, {8, 0, 0, 0, 0, 0}, {0xff, 0xff, 0xff, 0x7f, 0, 0}, {0xff, 0xff, 0xff, 0xff, 0, 0}, protocol.NewLockCommandDataSetString("v").Data} {
+		nestedFrames := [][]byte{{}, {0}, {0, 0, 0, 0}, {1, 0, 0, 0}, {1, 0, 0, 0, 0}, {2, 0, 0, 0, 0}, {2, 0, 0, 0, 0, 0}, {3, 0, 0, 0, 0, 0x10, 9}, {8, 0, 0, 0, 0, 0}, {0xff, 0xff, 0xff, 0x7f, 0, 0}, {0xff, 0xff, 0xff, 0xff, 0, 0}, protocol.NewLockCommandDataSetString("v").Data}
+		// embedded value frames that claim a property header they are too short for, for every operation type
+		for opt := byte(0); opt < 8; opt++ {
+			nestedFrames = append(nestedFrames, []byte{2, 0, 0, 0, opt, 0x10}, []byte{3, 0, 0, 0, opt, 0x10, 9}, []byte{4, 0, 0, 0, opt, 0x10, 0xff, 0xff}, []byte{7, 0, 0, 0, opt, 0x10, 3, 0, 1, 0xff, 0xff})
+		}
+		for vi, nested := range nestedFrames {
 			body := append(append([]byte{}, eb...), nested...)
 			n := 2 + len(body)
 			ops[fmt.Sprintf("execute-stage%d-nested-data%d", stage, vi)] = append([]byte{byte(n), byte(n >> 8), 0, 0, stage<<6 | 5, 0}, body...)
@@ -439,6 +444,10 @@ func c13TextStreams(quick bool) []c13Stream {
 		{0, 0x10, 0xff, 0xff, 1, 2},                           // property header longer than the value
 		{0, 0x12, 4, 0, 1, 1, 0, 'p', 0xff, 0xff, 0xff, 0x7f}, // property + array with a wild element length
 		{0, 0x01, 1, 2, 3},                                    // number shorter than 8 bytes
+		{0, 0x10, 3, 0, 1, 0xff, 0xff},                        // property area of the right size, property value length beyond it
+		{0, 0x10, 4, 0, 1, 2, 0, 'p'},                         // property value one byte short
+		{0, 0x10, 2, 0, 1, 9},                                 // property area ends inside a property header
+		{0, 0x10, 6, 0, 2, 0, 0, 1, 0xff, 0x7f, 'v'},          // second property wild
 	} {
 		n := len(val)
 		frameV := append([]byte{byte(n), byte(n >> 8), 0, 0}, val...)
